@@ -1019,8 +1019,16 @@ class Interp:
                     for s2, tr in self.fork_cmp(st, "le", a.lin, b.lin):
                         out.append((s2, (a if tr else b) if name == "min" else (b if tr else a)))
                     return out
-        if std and name in ("min", "max") and trait == "std::cmp::Ord" and len(args) == 2:
+        if std and name in ("min", "max") and len(args) == 2 and \
+                (trait == "std::cmp::Ord" or re.match(r"^(std|core)::cmp::(min|max)(::<.*>)?$", res or "")):
+            # the method of Ord and the free functions std::cmp::min / max agree on integers; the free function's
+            # generic argument says what is compared
             xs = ints(2)
+            ga = k.get("ga") or []
+            if xs is None and ga and ga[0] in INT_RANGES:
+                xs = [self.as_int(st, a, ga[0]) for a in args[:2]]
+                if any(x is None or x.lin is None for x in xs):
+                    xs = None
             if xs is not None:
                 a, b = xs
                 out = []
